@@ -289,87 +289,110 @@ def check_negotiate(prog, r):
     nv = view(prog, prog.one(r"rustybgp_packet::bgp::PeerCodec::negotiate"))
     r.analysed(nv.name)
     brs = branches(nv)
+    # whose capability list a value comes from is decided by value flow from the two parameters (1 = our list, 2 = the peer's),
+    # not by what the locals are called: the entry taken out of the map built from parameter 1 is ours, the loop variable of the
+    # map built from parameter 2 is the peer's
+    from .c02 import SideResolver
+    side = SideResolver(prog, nv)
+
+    def who(x):
+        rs = side.roots(x)
+        return "lc" if 1 in rs else "rc" if rs == {2} else "?"
     want = {"addpath_rx": {("lc", 1), ("rc", 2)}, "addpath_tx": {("lc", 2), ("rc", 1)}}
-    for l, n in nv.local_name.items():
-        if n not in want:
-            continue
-        got = set()
-        rend = Renderer(nv, depth=10)
-        for bi, si, s in nv.defs().get(l, []):
-            if bi not in nv.live or si == "t":
+    rend = Renderer(nv, depth=10)
+    seen_fields = set()
+    for bi0, si0, st0 in nv.aggregates(re.compile(r"rustybgp_packet::bgp::FamilyState")):
+        from ..util import agg_field as af
+        for n in want:
+            op = af(st0, n)
+            if op is None:
                 continue
-            exprs = [rend.rvalue(s["rv"], 10)] + [g for g, ll, h in flat_guards(nv, bi, brs) if ll == {"true"}]
-            for e in exprs:
-                for x in walk(e):
-                    if isinstance(x, tuple) and x and x[0] == "bin" and x[1] == "BitAnd":
-                        m = ceval(x[3]) if ceval(x[3]) is not None else ceval(x[2])
-                        side = "lc" if "lc" in expr_vars(x) else "rc" if "rc" in expr_vars(x) else "?"
-                        if "addpath" in expr_fields(x):
-                            got.add((side, m))
-        if got == want[n]:
-            r.ok("negotiate: %s = %s" % (n, sorted(got)))
-        else:
-            r.fail(nv.name, "mask:" + n, "%s is computed from %s; mirror-image negotiation needs %s (receive = local RX bit and remote TX bit; send = local TX bit and remote RX bit)" % (n, sorted(got), sorted(want[n])), nv.loc())
+            seen_fields.add(n)
+            q = op.get("c") or op.get("m")
+            got = set()
+            work, seen_l = ([q["l"]] if q is not None and not q.get("p") else []), set()
+            while work:
+                l = work.pop()
+                if l in seen_l:
+                    continue
+                seen_l.add(l)
+                for bi, si, s_ in nv.defs().get(l, []):
+                    if bi not in nv.live or si == "t":
+                        continue
+                    if s_["rv"]["r"] == "use":
+                        q2 = s_["rv"]["o"].get("c") or s_["rv"]["o"].get("m")
+                        if q2 is not None and not q2.get("p"):
+                            work.append(q2["l"])
+                    exprs = [rend.rvalue(s_["rv"], 10)] + [g for g, ll, h in flat_guards(nv, bi, brs) if ll == {"true"}]
+                    for e in exprs:
+                        for x in walk(e):
+                            if isinstance(x, tuple) and x and x[0] == "bin" and x[1] == "BitAnd":
+                                m = ceval(x[3]) if ceval(x[3]) is not None else ceval(x[2])
+                                if "addpath" in expr_fields(x):
+                                    got.add((who(x), m))
+            if got == want[n]:
+                r.ok("negotiate: %s = %s" % (n, sorted(got)))
+            else:
+                r.fail(nv.name, "mask:" + n, "%s is computed from %s; mirror-image negotiation needs %s (receive = local RX bit and remote TX bit; send = local TX bit and remote RX bit)" % (n, sorted(got), sorted(want[n])), nv.loc())
     for n in want:
-        if n not in nv.local_name.values():
-            r.unanalysable("negotiate: local %s not found" % n, nv.loc())
+        if n not in seen_fields:
+            r.unanalysable("negotiate: FamilyState.%s is not built here" % n, nv.loc())
     # both-sides predicates
-    for fld, what in (("extended_length", "extended message"), ("two_byte_as", "4-octet AS")):
+    for fld, what in (("extended_length", "extended message"), ("two_byte_as", "4-octet AS"), ("extended_nexthop", "extended next hop")):
         okb = False
+        n_agg = 0
         for bi, si, s in nv.aggregates(re.compile(r"rustybgp_packet::bgp::PeerCodec")):
             from ..util import agg_field as af
             op = af(s, fld)
             if op is None:
                 continue
+            n_agg += 1
             e = Renderer(nv, depth=14, through_names=True).operand(op, 14)
-            # value is a multi-def bool from `has(local) && has(remote)`: look at its definitions
+            # value is a multi-def bool from `has(local) && has(remote)` / a flag set to true under a test: look at its definitions
             p = op.get("c") or op.get("m")
-            txt = show(e, 300)
+            roots = set(side.roots(e))
             work = [p["l"]] if p and not p.get("p") else []
             seen_l = set()
+            true_defs = []
             while work and len(seen_l) < 12:
                 ll_ = work.pop()
                 if ll_ in seen_l:
                     continue
                 seen_l.add(ll_)
                 for b2, s2, st in nv.defs().get(ll_, []):
+                    if b2 not in nv.live:
+                        continue
                     ee = Renderer(nv, depth=14).rvalue(st["rv"], 14) if s2 != "t" else Renderer(nv, depth=14).call_expr(st, 14, b2)
-                    txt += " " + show(ee, 300)
-                    txt += " " + " ".join(show(g, 200) for g, ll, h in flat_guards(nv, b2, brs))
+                    if ee[0] == "const" and ee[1] == 0:
+                        continue            # the `false` side of an && / the initial value of a flag
+                    gr_ = set(side.roots(ee))
+                    for g, ll, h in flat_guards(nv, b2, brs):
+                        if any(c.endswith("Iterator::next") for c in expr_calls(g)):
+                            continue        # having left an earlier loop says nothing about the lists
+                        if fld != "extended_nexthop" or (ll == {"true"} and fld in expr_fields(g)):
+                            gr_ |= set(side.roots(g))
+                    true_defs.append(gr_)
                     for x in walk(ee):
                         if isinstance(x, tuple) and x and x[0] == "tmp":
                             work.append(x[1])
                         if isinstance(x, tuple) and x and x[0] == "var":
-                            # a hoisted `let both = has(local) && has(remote);`: follow the named local too
                             work.extend(l_ for l_, n_ in nv.local_name.items() if n_ == x[1] and l_ > nv.f["argc"])
-            if "local" in txt and "remote" in txt:
-                okb = True
+            if fld == "extended_nexthop":
+                okb = bool(true_defs) and all({1, 2} <= d for d in true_defs if d) and any(true_defs)
+            else:
+                allr = roots.union(*true_defs) if true_defs else roots
+                okb = {1, 2} <= allr
         if okb:
             r.ok("negotiate: %s needs both sides" % what)
+        elif fld == "extended_nexthop":
+            r.fail(nv.name, "one-sided:extended_nexthop", "extended next hop is switched on without both sides having advertised it for the family: IPv4 routes are then sent in MP_REACH_NLRI to a peer that did not negotiate RFC 8950", nv.loc())
         else:
             r.fail(nv.name, "one-sided:" + fld, "%s is enabled without consulting both capability lists" % what, nv.loc())
-    # per-family extended next hop (RFC 8950): switched on only where both sides advertised it for the family
-    ls = [l for l, nme in nv.local_name.items() if nme == "extended_nexthop"]
-    n_true = 0
-    for l in ls:
-        for bi, si, s in nv.defs().get(l, []):
-            if bi not in nv.live or si == "t" or not (s["rv"]["r"] == "use" and (s["rv"]["o"].get("k") or {}).get("v") == 1):
-                continue
-            n_true += 1
-            need = set()
-            for g, ll, h in flat_guards(nv, bi, brs):
-                if ll == {"true"} and "extended_nexthop" in expr_fields(g):
-                    need |= {v for v in expr_vars(g) if v in ("lc", "rc")}
-            if need == {"lc", "rc"}:
-                r.ok("negotiate: extended next hop needs the local and the remote capability")
-            else:
-                r.fail(nv.name, "one-sided:extended_nexthop", "extended next hop is switched on when %s advertised it: IPv4 routes are then sent in MP_REACH_NLRI to a peer that did not negotiate RFC 8950"
-                       % ("only one side (%s)" % "/".join(sorted(need)) if need else "neither side necessarily"), nv.loc(bi))
-    if n_true == 0:
-        r.unanalysable("negotiate: no `extended_nexthop = true` assignment found", nv.loc())
-    # families = intersection: insert only under lmap.remove(f) == Some while iterating parse(remote)
+    # families = intersection: a family is inserted only under `the map built from our list had it` (remove(..) == Some) while the
+    # peer's map is iterated
     ins = [b for b, t in nv.calls(re.compile(r".*HashMap::<K, V, S(, A)?>::insert")) if "FamilyState" in t["f"].get("ga", "")]
-    okf = ins and all(any(g[0] == "discr" and any(c.endswith("::remove") for c in expr_calls(g)) and "lmap" in expr_vars(g) and l == {"Some"} for g, l, h in flat_guards(nv, b, brs)) for b in ins)
+    okf = ins and all(any(g[0] == "discr" and any(c.endswith("::remove") or c.endswith("::get") or c.endswith("::contains_key") for c in expr_calls(g)) and {1, 2} <= set(side.roots(g)) and l == {"Some"}
+                          for g, l, h in flat_guards(nv, b, brs)) for b in ins)
     if okf:
         r.ok("negotiate: a family is in force only if both sides advertised it")
     else:
